@@ -304,3 +304,18 @@ def run_calc(net, kind, kw, extra=None):
         cases = contingency_cases(net, kw.pop("cases"))
         return run_contingency_parallel(net, cases, **kw)
     raise ValueError(kind)
+
+
+def overlapping_lookup(idx, mode, a=0, b=0):
+    """reindex lookups whose new indices overlap the old ones (the mapping is simultaneous, not sequential):
+    every element one up, two indices swapped, all indices rotated; None for mode 'above' / too few elements"""
+    idx = list(idx)
+    if mode == "shift_all" and idx:
+        return {old: old + 1 for old in idx}
+    if mode == "swap" and len(idx) >= 2:
+        x = idx[a % len(idx)]
+        y = idx[(a + 1 + b % (len(idx) - 1)) % len(idx)]
+        return {x: y, y: x}
+    if mode == "rotate" and len(idx) >= 3:
+        return {idx[j]: idx[(j + 1) % len(idx)] for j in range(len(idx))}
+    return None
